@@ -21,16 +21,55 @@ from vlib import std, lab, common, hbuild, recipes
 
 PID = "C08"
 META = {
-    "text": "see run()",
-    "note": "partial",
-    "technique": "Coq proof (inductive invariants of a descriptor-ownership protocol machine over all event orders) + "
-                 "end-to-end differential correspondence against the running squid under random abort histories + "
+    "text": "Theorems (Properties_C08.v, 14, all closed under the global context). (1) src/fd.cc transcribed line by line "
+            "(fd_open incl. its 'Closing open FD' branch, fd_close, fdUpdateBiggest with its three asserts and the "
+            "downward scan): after ANY sequence of calls that respects the callers' obligations no assert fires, the open "
+            "flags are those of the plain replay, Number_FD = number of open flags, Biggest_FD = largest open descriptor. "
+            "(2) _comm_close: idempotent; on an open descriptor it schedules every close handler once, in list order, then "
+            "comm_close_complete, and leaves no handler and no timeout. (3) A descriptor-ownership protocol machine "
+            "(owners: ConnStateData per client connection, HttpStateData per server connection, the IdleConnList/PconnPool "
+            "incl. the fdUsageHigh refusal and pop-and-close for non-retriable requests; events: accept, connect, pool pop, "
+            "complete persistent / non-persistent reply, server failure, client completion, client EOF/RST, any armed "
+            "timeout, idle-connection read, close by a third party, the AsyncCallQueue firing, in ANY order): in every "
+            "reachable state no fd.cc assert has fired, Number_FD/Biggest_FD/kernel descriptor set agree with the table, "
+            "exactly the descriptors being closed have one comm_close_complete pending (each close(2) happens once), "
+            "PconnPool's count is the pool size, every job owns at most one descriptor, and with an empty call queue every "
+            "open descriptor is infrastructure, or owned by one live job with its close handler registered and a timeout "
+            "armed, or pooled with a timeout armed (no orphans); a close from anywhere notifies the owner first and an "
+            "aborted client's server connection is released with it. (4) C08_quiescent_returns_to_baseline_partial: after "
+            "ANY history, once every armed timeout has fired and the call queue has run dry, exactly the descriptors open "
+            "before traffic are open (table and kernel), Number_FD and Biggest_FD are back at their start values, the pool "
+            "is empty; C08_model_prediction: the observation line the extracted model prints for the lab is that theorem. "
+            "Tie: (a) the real src/fd.cc + src/fde.cc compiled from the working tree on every run are driven with random "
+            "fd_open/fd_close sequences and diffed against the extracted fd model; (b) the real squid binary is driven "
+            "through random histories of concurrent transactions -- clients completing, keeping the connection, sending a "
+            "second request, aborting (FIN/RST) at random offsets of the request head/body or of the response, "
+            "half-closing, or stalling while HOLDING the socket; origin completing (Content-Length, chunked, "
+            "close-delimited, closing after a keep-alive reply), cutting the reply at a random offset (FIN/RST), closing "
+            "before replying, stalling before or inside the reply; cacheable and uncacheable, memory cache on and caching "
+            "off -- and after traffic stops, with the stalled peers still holding their sockets, /proc/<pid>/fd must "
+            "return to the pre-traffic count within the configured timeouts, squid must be alive, cache.log must have no "
+            "assertion/FATAL/BUG, and Number_FD (mgr:info) = rows of mgr:filedescriptors = /proc count minus the untracked "
+            "constant; sequential histories additionally compare the number of idle server connections after every "
+            "transaction with the model's pool.",
+    "note": "partial (the weakest claim of the suite): the protocol theorems are about the model's owners; that every real "
+            "owner (ConnStateData, FwdState, HttpStateData, Comm::Connection's closing destructor, store/disk, helper, ICAP "
+            "and tunnel descriptors) follows the protocol is NOT proved and rests on the end-to-end runs only. Not modelled: "
+            "IdleConnList's array capacity growth and closeN, pinned connections, CONNECT tunnels, TLS goodbye, half-closed "
+            "monitoring, shutdown. Lab timeouts: all of client_idle_pconn/server_idle_pconn/read/request/request_start/"
+            "write/connect_timeout and client_lifetime are set to 2-4 s; a client that stalls inside a request BODY is "
+            "released only by client_lifetime (default 1 day) -- neither request_timeout nor read_timeout applies (observed, "
+            "documented behaviour, not counted as a leak). Trusted: Coq kernel, extraction, vlib/lab.py, /proc.",
+    "technique": "Coq proof (inductive invariant of a descriptor-ownership protocol machine over all event orders; "
+                 "line-by-line model of fd.cc with assertion outcomes) + differential correspondence of the extracted model "
+                 "against the real fd.cc (unit harness) and against the running squid under random abort histories + "
                  "independent oracle on /proc/<pid>/fd, cache manager reports and cache.log",
 }
 
 TIMEOUTS = {"client_idle_pconn_timeout": 2, "server_idle_pconn_timeout": 3, "read_timeout": 2, "request_timeout": 2,
             "request_start_timeout": 2, "write_timeout": 3, "connect_timeout": 2, "client_lifetime": 4}
 QUIESCE = max(TIMEOUTS.values()) + 6.0      # how long the descriptors may take to return after traffic stops
+STALL = QUIESCE + 15.0                      # a stalled origin stays silent (socket open) past the observation window
 CONF_COMMON = "".join("%s %d seconds\n" % kv for kv in sorted(TIMEOUTS.items()))
 CFGS = {
     "mem": "",                               # memory cache on
@@ -88,7 +127,7 @@ def gen_history(rng, k):
             groups.append(g)
         txs = []
         for gi in range(ng):
-            ck = rng.choice(["ok", "ok", "ok", "abort_req", "stall_req", "half"])
+            ck = rng.choice(["ok", "ok", "ok", "abort_req", "stall_req", "ok_hold"])
             c = {"c": ck, "g": gi}
             if ck in ("abort_req", "stall_req"):
                 c["at"] = rng.randrange(1, 400)   # inside the request head
@@ -284,9 +323,9 @@ def _origin_spec(g, seed):
     elif sk == "slow":
         spec["delay"] = 0.3
     elif sk == "stall_head":
-        spec["delay"] = TIMEOUTS["read_timeout"] + 2.5
+        spec["delay"] = STALL                      # longer than the whole observation window
     elif sk == "stall_body":
-        spec["splits"] = [g["at"]]; spec["split_delay"] = TIMEOUTS["read_timeout"] + 2.5
+        spec["splits"] = [g["at"]]; spec["split_delay"] = STALL
     return spec
 
 
@@ -321,7 +360,7 @@ def _read_response(sock, method, stop_at=None, total=9.0):
     return raw, False, False
 
 
-def _do_tx(inst, c, g, rid, holders, seed):
+def _do_tx(inst, c, g, rid, holders, seed, inhead=False):
     url = inst.org.url(_origin_spec(g, seed), rid)
     method = g["method"]
     host = url.split("://", 1)[1].split("/", 1)[0]
@@ -341,7 +380,7 @@ def _do_tx(inst, c, g, rid, holders, seed):
     try:
         if ck in ("abort_req", "abort_req_rst", "stall_req"):
             n = max(1, min(len(data) - 1, len(data) * c["at"] // 1000))
-            if c.get("inhead"):
+            if inhead:
                 n = max(1, min(len(head) - 1, len(head) * c["at"] // 1000))
             sock.sendall(data[:n])
             if ck == "stall_req":
@@ -394,11 +433,10 @@ def _run_history(inst, s, hid):
         c = txs[i]
         g = s["groups"][c["g"]]
         rid = "h%dg%d" % (hid, c["g"]) if g["cacheable"] else "h%dg%dt%d" % (hid, c["g"], i)
-        return _do_tx(inst, c, g, rid, holders, hid * 131 + c["g"])
+        return _do_tx(inst, c, g, rid, holders, hid * 131 + c["g"], inhead=s["seq"])
 
     if s["seq"]:
         for i in range(len(txs)):
-            txs[i]["inhead"] = True
             one(i)
             _stable_nfd(pid, need=4, gap=0.05, limit=2.0)
             idle_obs.append(_count_idle(sq))
@@ -563,7 +601,17 @@ def prebuild():
 
 
 def run(res, tier):
-    res.rule = "TODO"
+    res.rule = ("two scenario kinds. fdops: 1-40 random fd_open/fd_close calls on a table of 4-32 entries (close only open "
+                "entries; 7%% re-open an open entry) run on the real fd.cc. hist: a history on one squid instance (6 instances, "
+                "memory cache on / caching off): concurrent histories = 8-20 transactions over 2-6 URL groups (server behaviour "
+                "per group: ok, chunked, close-delimited, close-after-reply, cut at random byte (FIN/RST), close before reply "
+                "(FIN/RST), slow, stall before reply, stall at random byte; body 0-300000 bytes; cacheable or not; GET or POST "
+                "with 1-100000 byte body) x client behaviour (ok, ok and hold the connection, two requests, abort request at "
+                "random permille (FIN/RST), stall request at random permille, abort response after 0-60000 bytes (FIN/RST), "
+                "half-close, stop reading and hold), 2-8 client threads; sequential histories = 2-4 uncacheable transactions "
+                "with the idle-pool size observed after each. After traffic: wait (<= %.0f s) for /proc/<pid>/fd to return to "
+                "the pre-history count while stalled peers still hold their sockets; then liveness, cache.log, accounting. "
+                "non-trivial = at least one transaction with a client or server fault" % QUIESCE)
     try:
         std.run_lab(res, PID, tier, area="fdleak", gen_scenarios=gen_scenarios, run_impl=run_impl, to_case=to_case,
                     oracle=oracle, corr_name="FdleakModel (descriptor protocol machine) vs the running squid",
